@@ -9,11 +9,17 @@ import (
 	"bufio"
 	"encoding/hex"
 	"fmt"
+	"math/rand"
 	"os"
+	"runtime"
 	"strconv"
 	"strings"
+	"sync"
+	"sync/atomic"
 	"testing"
+	"time"
 
+	"github.com/pgavlin/dawn/diff"
 	"go.starlark.net/starlark"
 )
 
@@ -48,13 +54,8 @@ func c16rval(v starlark.Value) string {
 
 // mode 0: no callable (stamp() fails, as for a hand-built function value); 1: a real callable whose stamp
 // differs from the recorded one; 2: a real callable whose stamp equals the recorded one.
-func c16diffEnv(o, n starlark.Value, mode int) (up bool, reason string, err error, panicked string, stampState int) {
-	defer func() {
-		if x := recover(); x != nil {
-			panicked = fmt.Sprint(x)
-		}
-	}()
-	f := &function{oldEnv: o, newEnv: n}
+func c16mkFunction(o, n starlark.Value, mode int) (f *function, stampState int) {
+	f = &function{oldEnv: o, newEnv: n}
 	if mode > 0 {
 		globals, xerr := starlark.ExecFile(&starlark.Thread{}, "c16.star", "def f(x):\n  return x + 1\n", nil)
 		if xerr != nil {
@@ -71,15 +72,188 @@ func c16diffEnv(o, n starlark.Value, mode int) (up bool, reason string, err erro
 			f.targetInfo.Data = st + "x"
 		}
 	}
-	if st, serr := f.stamp(); serr != nil {
-		stampState = 0
-	} else if st == f.targetInfo.Data {
-		stampState = 1
-	} else {
-		stampState = 2
-	}
-	up, reason, _, err = f.diffEnv()
+	func() {
+		defer func() {
+			if recover() != nil {
+				stampState = 0
+			}
+		}()
+		if st, serr := f.stamp(); serr != nil {
+			stampState = 0
+		} else if st == f.targetInfo.Data {
+			stampState = 1
+		} else {
+			stampState = 2
+		}
+	}()
 	return
+}
+
+// c16diffKeys lists the functionEnvKeys for which the diff returned next to the reason has an edit ("-" = no
+// mapping diff was returned).
+func c16diffKeys(d diff.ValueDiff) string {
+	md, ok := d.(*diff.MappingDiff)
+	if !ok || md == nil {
+		return "-"
+	}
+	var ks []string
+	for _, k := range functionEnvKeys {
+		if md.Has(k) {
+			ks = append(ks, string(k))
+		}
+	}
+	return strings.Join(ks, "|")
+}
+
+// c16obs is everything diffEnv reports for one target.
+type c16obs struct {
+	up       bool
+	reason   string
+	diffKeys string
+	st       string // ok | err | panic
+	detail   string
+	diffText string // the whole diff handed out with the reason, rendered (old/new values, nested edits)
+}
+
+func c16diffText(d diff.ValueDiff) (s string) {
+	defer func() {
+		if x := recover(); x != nil {
+			s = fmt.Sprint("rendering the diff panics: ", x)
+		}
+	}()
+	if d == nil {
+		return ""
+	}
+	return d.String()
+}
+
+// c16short shows where two renderings part.
+func c16short(got, want string) string {
+	if got == want {
+		return "same nested diff"
+	}
+	i := 0
+	for i < len(got) && i < len(want) && got[i] == want[i] {
+		i++
+	}
+	cut := func(x string) string {
+		lo := i - 40
+		if lo < 0 {
+			lo = 0
+		}
+		hi := i + 80
+		if hi > len(x) {
+			hi = len(x)
+		}
+		return x[lo:hi]
+	}
+	return fmt.Sprintf("nested diff differs at byte %d: concurrent ...%s... alone ...%s...", i, cut(got), cut(want))
+}
+
+func c16callDiffEnv(f *function) (r c16obs) {
+	defer func() {
+		if x := recover(); x != nil {
+			r.st, r.detail = "panic", fmt.Sprint(x)
+		}
+	}()
+	up, reason, d, err := f.diffEnv()
+	r = c16obs{up: up, reason: reason, diffKeys: c16diffKeys(d), st: "ok", diffText: c16diffText(d)}
+	if err != nil {
+		r.st, r.detail = "err", err.Error()
+	}
+	return
+}
+
+// c16reasonNames: the reason is "<parts> changed" and mentions exactly the keys in want.
+func c16reasonNames(reason string, want map[string]bool) bool {
+	if !strings.HasSuffix(reason, " changed") {
+		return false
+	}
+	for _, k := range functionEnvKeys {
+		if strings.Contains(reason, string(k)) != want[string(k)] {
+			return false
+		}
+	}
+	return true
+}
+
+// A c16target is one target of a concurrent schedule: its function value, what a check of it alone reported, and
+// the keys at which its two environments differ (nil = not applicable).
+type c16target struct {
+	name      string
+	f         *function
+	alone     c16obs
+	differing map[string]bool
+	check     func(f *function) c16obs
+}
+
+// c16siblings checks the targets the way the runner does: every target on a goroutine of its own (runner.target.start
+// -> go t.run -> runTarget.Evaluate -> upToDate -> diffEnv), all at the same time.  A schedule is (workers, procs,
+// seed): the targets are dealt to `workers` goroutines (no target is ever checked by two goroutines at once, exactly
+// as in a build), every goroutine checks its targets in a seeded order of its own, over and over, until `budget` has
+// passed, with GOMAXPROCS = procs.  What is reported for a target must be what was reported for it alone.
+// Returns (checks made, failures); at most `keep` failures are described through report.
+func c16siblings(targets []c16target, workers, procs int, seed int64, budget time.Duration, keep int,
+	report func(t *c16target, got c16obs, sched string)) (int64, int64) {
+
+	if workers > len(targets) {
+		workers = len(targets)
+	}
+	if workers < 2 {
+		return 0, 0
+	}
+	prev := runtime.GOMAXPROCS(procs)
+	defer runtime.GOMAXPROCS(prev)
+	sched := fmt.Sprintf("workers=%d GOMAXPROCS=%d seed=%d", workers, procs, seed)
+
+	var (
+		wg              sync.WaitGroup
+		start           = make(chan struct{})
+		checks, failed  int64
+		m               sync.Mutex
+		deadline        = time.Now().Add(budget)
+	)
+	for g := 0; g < workers; g++ {
+		var mine []*c16target
+		for i := g; i < len(targets); i += workers {
+			mine = append(mine, &targets[i])
+		}
+		rng := rand.New(rand.NewSource(seed*1000 + int64(g)))
+		wg.Add(1)
+		go func(mine []*c16target, rng *rand.Rand) {
+			defer wg.Done()
+			<-start
+			n := int64(0)
+			for time.Now().Before(deadline) && atomic.LoadInt64(&failed) < int64(keep) {
+				rng.Shuffle(len(mine), func(i, j int) { mine[i], mine[j] = mine[j], mine[i] })
+				for _, t := range mine {
+					got := t.check(t.f)
+					n++
+					if got != t.alone || (t.differing != nil && got.st == "ok" && !got.up && !c16reasonNames(got.reason, t.differing)) {
+						if atomic.AddInt64(&failed, 1) <= int64(keep) {
+							m.Lock()
+							report(t, got, sched)
+							m.Unlock()
+						}
+					}
+				}
+			}
+			atomic.AddInt64(&checks, n)
+		}(mine, rng)
+	}
+	close(start)
+	wg.Wait()
+	return checks, failed
+}
+
+func c16wantKeys(differing map[string]bool) string {
+	var ks []string
+	for _, k := range functionEnvKeys {
+		if differing[string(k)] {
+			ks = append(ks, string(k))
+		}
+	}
+	return strings.Join(ks, "|")
 }
 
 func TestVerifC16Reason(t *testing.T) {
@@ -102,14 +276,16 @@ func TestVerifC16Reason(t *testing.T) {
 	cases, oracles := 0, 0
 
 	mode := 0
+	var pool []c16target
 	emit := func(class string, o, n starlark.Value, differing map[string]bool, dictCase bool) {
 		cases++
-		up, reason, err, p, sei := c16diffEnv(o, n, mode)
-		st := "ok"
-		if p != "" {
-			st = "panic"
-		} else if err != nil {
-			st = "err"
+		fn, sei := c16mkFunction(o, n, mode)
+		obs := c16callDiffEnv(fn)
+		up, reason, st, p := obs.up, obs.reason, obs.st, obs.detail
+		if dictCase {
+			pool = append(pool, c16target{name: class, f: fn, alone: obs, differing: differing, check: c16callDiffEnv})
+		} else {
+			pool = append(pool, c16target{name: class, f: fn, alone: obs, check: c16callDiffEnv})
 		}
 		u := 0
 		if up {
@@ -133,15 +309,14 @@ func TestVerifC16Reason(t *testing.T) {
 		if eq {
 			return
 		}
-		bad := !strings.HasSuffix(reason, " changed")
-		for _, k := range functionEnvKeys {
-			if strings.Contains(reason, string(k)) != differing[string(k)] {
-				bad = true
-			}
-		}
-		if bad {
+		if !c16reasonNames(reason, differing) {
 			oracles++
 			fmt.Fprintf(w, "ORACLE\treason-names-exactly-differing-keys\t%s\t%s\t%s\n", c16rval(o), c16rval(n), reason)
+		}
+		// the diff handed out with the reason (the two are shown together for one target) has edits at the same keys
+		if want := c16wantKeys(differing); obs.diffKeys != want {
+			oracles++
+			fmt.Fprintf(w, "ORACLE\tdiff-shown-with-reason-has-the-differing-keys\t%s\t%s\t%s\tdiff keys %s\n", c16rval(o), c16rval(n), reason, obs.diffKeys)
 		}
 	}
 
@@ -213,6 +388,31 @@ func TestVerifC16Reason(t *testing.T) {
 		o.SetKey(starlark.String("code"), nest(starlark.MakeInt(1)))
 		n.SetKey(starlark.String("code"), nest(starlark.MakeInt(2)))
 		emit("deep", o, n, nil, false)
+	}
+
+	// Sibling targets checked at the same time (the runner checks every target on a goroutine of its own): what is
+	// reported for a target is a function of ITS environments, whatever its siblings are and whenever they are
+	// checked.  All the cases above are the targets; a family of schedules (number of goroutines x GOMAXPROCS x
+	// seeded orders) is run, each for a slice of the time budget.
+	if os.Getenv("VERIF_C16_CONC") != "0" {
+		seed, _ := strconv.ParseInt(os.Getenv("VERIF_SEED"), 10, 64)
+		budgetMs, _ := strconv.Atoi(os.Getenv("VERIF_C16_CONC_MS"))
+		if budgetMs <= 0 {
+			budgetMs = 1500
+		}
+		ncpu := runtime.NumCPU()
+		type sch struct{ workers, procs int }
+		scheds := []sch{{2, 2}, {4, 4}, {8, 8}, {16, 16}, {8, 1}, {3, 2}, {16, ncpu}, {64, ncpu}}
+		per := time.Duration(budgetMs) * time.Millisecond / time.Duration(len(scheds))
+		for i, sc := range scheds {
+			checks, failed := c16siblings(pool, sc.workers, sc.procs, seed*100+int64(i), per, 3, func(tg *c16target, got c16obs, sched string) {
+				oracles++
+				fmt.Fprintf(w, "ORACLE\treason-of-a-target-independent-of-concurrently-checked-siblings\t%s\t%s\tconcurrent: up=%v reason=%q diff keys=%s %s %s\talone: up=%v reason=%q diff keys=%s\t%s\t%s; siblings: the other %d cases of this harness\n",
+					c16rval(tg.f.oldEnv), c16rval(tg.f.newEnv), got.up, got.reason, got.diffKeys, got.st, got.detail,
+					tg.alone.up, tg.alone.reason, tg.alone.diffKeys, c16short(got.diffText, tg.alone.diffText), sched, len(pool)-1)
+			})
+			fmt.Fprintf(w, "CONC\thand-built\tworkers=%d GOMAXPROCS=%d\t%d\t%d\n", sc.workers, sc.procs, checks, failed)
+		}
 	}
 	t.Logf("C16 reason: %d cases, %d oracle failures", cases, oracles)
 }
